@@ -165,7 +165,9 @@ LINTERS = {
     "performance": dict(cmd="perf", sections=["performance"], files=lambda: _files([("py", "concat", 1, 0), ("py", "regex", 2, 0), ("ts", "concat", 3, 0)]),
                         knobs=[], cli={}, invalid=[], lang_knob=None),
     "stringly-typed": dict(cmd="stringly-typed", sections=["stringly-typed"], files=_stringly_files,
-                           knobs=[("min_occurrences", [2, 3, 4, 5]), ("min_values_for_enum", [2, 3, 4, 5]), ("require_cross_file", [False, True])], cli={},
+                           knobs=[("min_occurrences", [2, 3, 4, 5]), ("min_values_for_enum", [2, 3, 4, 5]), ("require_cross_file", [False, True]),
+                                  # documented option "Variable names to exclude from detection": the compared / tested variable of the planted sets
+                                  ("exclude_variables", [[], ["env_41"], ["env_41", "mode_9"]])], cli={},
                            invalid=[("min_occurrences", 0), ("min_values_for_enum", 1)], lang_knob=None),
     "lazy-ignores": dict(cmd="lazy-ignores", sections=["lazy-ignores"], files=_lazy_files,
                          knobs=[("check_noqa", [True, False]), ("check_type_ignore", [True, False])], cli={}, invalid=[], lang_knob=None),
@@ -634,11 +636,13 @@ def matrix_cells():
 
 def run(ctx):
     cells = matrix_cells()
+    if ctx.quick:
+        # every invalid-value / language cell; half of the sweep / ignore cells, chosen by a hash of the cell and the seed over the
+        # WHOLE matrix (a choice by position inside a shard kept or dropped all carrier x spelling variants of a knob together)
+        cells = [c for i, c in enumerate(cells) if c["kind"] in ("invalid", "lang", "langmix") or (int(h(c)[:8], 16) + ctx.seed) % 2 == 0]
     mine = ctx.my_cells(cells)
-    if ctx.quick:  # every invalid-value cell (one CLI call each); half of the sweeps / ignore cells, rotating with the seed
-        mine = [c for i, c in enumerate(mine) if c["kind"] in ("invalid", "lang", "langmix") or (i + ctx.seed) % 2 == 0]
     done = ctx.each(mine, check)
-    ctx.stats.extra.setdefault("matrix", {})["sweep/invalid/ignore/language-override cells: section x knob x carrier x spelling"] = {"cells": len(ctx.my_cells(cells)), "done": done}
+    ctx.stats.extra.setdefault("matrix", {})["sweep/invalid/ignore/language-override cells: section x knob x carrier x spelling"] = {"cells": len(mine), "done": done}
     pairs = [(n, s) for n, L in LINTERS.items() for s in L["sections"]]
     for i, (name, section) in enumerate(pairs):
         if i % ctx.nshards != ctx.shard:
